@@ -38,6 +38,7 @@ structure Views (α : Type) where
   asMap : List (String × α)
   asDict : List (String × α)
   gets : List (Option α)
+  deriving DecidableEq
 
 inductive Out (α : Type) where
   | ctx
